@@ -68,5 +68,11 @@ MaskCount == (DoneV /\ variant = "mask") => ncols = Min(MaskCap, nat)
 Max(a, b) == IF a > b THEN a ELSE b
 CeemdCount == (DoneV /\ variant = "ceemd") => ncols = (IF cap = 0 THEN Max(nat, 2) ELSE Min(cap, Max(nat, 2)))
 Terminates == <>(DoneV \/ pc = "raises")
+\* the mask and complete-ensemble loops, step by step, are the loops of SiftVariantsInd, on which Apalache proves
+\* CapRespected / MaskCount / CeemdCount inductively for ARBITRARY natural cap, natural length and list length  (Dev = {})
+SVI == INSTANCE SiftVariantsInd
+RefinesInd == [][(variant \in {"mask", "ceemd"}) => SVI!Next]_vars
+IndInvHolds == variant \in {"mask", "ceemd"} => SVI!IndInv
+
 W_CapBinds == ~(DoneV /\ cap # 0 /\ ncols = cap /\ nat > cap)
 =============================================================================
